@@ -24,7 +24,37 @@ func switchRecipe(salt uint64, seed uint64, i int) *rec.Rec {
 	if i%3 == 1 {
 		kind = []string{"packet_in", "mp_reply:flow", "flow_removed", "packet_in", "mp_reply:flow", "port_status"}[(i/3)%6]
 	}
-	return withExperimenterOXM(r, gen.SwitchMessage(r, kind))
+	return withUnknownHelloElements(r, withExperimenterOXM(r, gen.SwitchMessage(r, kind)))
+}
+
+// withUnknownHelloElements inserts hello elements of types OpenFlow 1.3 does not define, of any length, at random
+// positions: a receiver must skip them (by their padded length) and still find the version bitmaps.
+func withUnknownHelloElements(r *prng.R, m *rec.Rec) *rec.Rec {
+	if m.K != "hello" || !r.Chance(1, 2) {
+		return m
+	}
+	es := m.List("elements")
+	for n := r.Pick(1, 1, 2); n > 0; n-- {
+		u := rec.New("hello_unknown").Set("type", uint64(r.Pick(0, 2, 3, 0x7fff, 0xffff))).SetB("data", r.Bytes(r.Pick(0, 1, 2, 4, 5, 9, r.Range(0, 20))))
+		at := r.Intn(len(es) + 1)
+		es = append(es[:at], append([]*rec.Rec{u}, es[at:]...)...)
+	}
+	m.SetL("elements", es)
+	return m
+}
+
+// dropUnknownHello removes from an expectation the hello elements a receiver is required to skip.
+func dropUnknownHello(m *rec.Rec) *rec.Rec {
+	if m.K == "hello" {
+		var keep []*rec.Rec
+		for _, e := range m.List("elements") {
+			if e.K != "hello_unknown" {
+				keep = append(keep, e)
+			}
+		}
+		m.SetL("elements", keep)
+	}
+	return m
 }
 
 // withExperimenterOXM inserts, at random positions of the match lists of a switch message, the ONF experimenter-class
@@ -168,7 +198,7 @@ func c04Eval(c *fw.Ctx, data any) {
 		c.Violation(kind, "wrong-kind", "extract", fmt.Sprintf("parsed value of type %T cannot be read as a %s: %v", msg, m.K, xerr))
 		return
 	}
-	want := spec.Canon(normPayloadRec(m.Clone()))
+	want := spec.Canon(dropUnknownHello(normPayloadRec(m.Clone())))
 	ds := rec.DiffAll(want, spec.Canon(got), 8)
 	if len(ds) == 0 {
 		c.Count("parsed_equal", 1)
